@@ -128,9 +128,11 @@ def run_cli(case):
                     "H": ["--http-seed"] + VALS["H"], "P": ["-p"], "S": ["-s", VALS["S"]], "C": ["-c", VALS["C"]],
                     "L": ["--piece-length", str(case["plen_arg"])], "V": ["--meta-version", str(v)],
                     "O": ["-o", requested], "G": ["--align"], "PATH": [root], "PROG": ["--prog", "0"]}
-                argv = [case.get("spelling", "create")]
+                argv = list(case.get("pre", [])) + [case.get("spelling", "create")]
                 for g in case["shape"]:
                     argv += groups[g]
+                if case.get("magnet_flag"):
+                    argv += ["-m"]
                 from torrentfile.cli import execute
                 execute(argv)
         except SystemExit as ex:
